@@ -305,6 +305,16 @@ var Bodies = []Body{
 		b := canvas.Ellipse(3, 1).Transform(canvas.Identity.Translate(1, 0.5).Rotate(30))
 		return a.And(b).String() + "|" + a.Or(b).String() + "|" + a.Append(b).Settle(canvas.EvenOdd).String()
 	}},
+	// one inflected cubic flattened and stroked at a coarse and at a fine tolerance (two bodies): whatever
+	// a call remembers about a curve must not depend on the tolerance of the call before
+	{Name: "Flatten+Stroke(inflected cubic, tolerance 5)", Hist: true, Run: func() string {
+		p := canvas.MustParseSVGPath("M0 0C10 20 20 -20 30 0")
+		return p.Flatten(5).String() + "|" + p.Stroke(2, canvas.RoundCap, canvas.RoundJoin, 5).String()
+	}},
+	{Name: "Flatten+Stroke(the same inflected cubic, tolerance 0.01)", Hist: true, Run: func() string {
+		p := canvas.MustParseSVGPath("M0 0C10 20 20 -20 30 0")
+		return p.Flatten(0.01).String() + "|" + p.Stroke(2, canvas.RoundCap, canvas.RoundJoin, 0.01).String()
+	}},
 	// the line breaker itself, on item lists of its own: a paragraph that cannot be broken within
 	// text.Tolerance (six words of 10 in a column of 26: the breaker has to raise its tolerance for this
 	// paragraph) and one with exactly one breaking within the tolerance and a cheaper one just above
